@@ -2,8 +2,11 @@ module github.com/emersion/go-imap/v2/verif
 
 go 1.18
 
-require github.com/emersion/go-imap/v2 v2.0.0-00010101000000-000000000000
+require (
+	github.com/emersion/go-imap/v2 v2.0.0-00010101000000-000000000000
+	golang.org/x/text v0.14.0
+)
 
-require golang.org/x/text v0.14.0 // indirect
+require github.com/emersion/go-sasl v0.0.0-20231106173351-e73c9f7bad43 // indirect
 
 replace github.com/emersion/go-imap/v2 => /repo
